@@ -62,7 +62,7 @@ func (ex *Exec) VerifyFunction(fn *ssa.Function, ct *Contract) {
 		}
 	}
 	for _, pr := range pairs {
-		st := &State{Heap: map[*Object]Value{}, PreHeap: map[*Object]Value{}, Ghost: map[string]Value{}, Held: map[string]int{}}
+		st := &State{Heap: map[*Object]Value{}, PreHeap: map[*Object]Value{}, Ghost: map[string]Value{}, PreGhost: map[string]Value{}, Held: map[string]int{}}
 		fr := &Frame{Fn: fn, Block: fn.Blocks[0], Locals: map[ssa.Value]Value{}, LoopHit: map[*ssa.BasicBlock]int{}, Cut: map[*ssa.BasicBlock]bool{}}
 		var args []Value
 		for i, p := range fn.Params {
@@ -133,6 +133,22 @@ func (ex *Exec) finish(st *State, fr *Frame, res Value) {
 		ob := &Obligation{Name: ex.clauseName(fr.Fn, "post", en, i), Kind: "post", Goal: t, Props: en.Props, Fn: fr.Fn.String(), Note: en.Line, Clause: en, Entry: fr.Fn.String()}
 		ex.record(st, ob)
 	}
+	for i, ef := range ct.Effects {
+		if ef.Primitive {
+			continue
+		}
+		var errs []string
+		env := &Env{ex: ex, st: st, names: names, errs: &errs}
+		c := env.evalBool(ef.Cond)
+		at, ok := ex.argTerm(st, env.evalBytesArg(ef.Arg))
+		if c == nil || !ok {
+			ex.Specs.Errors = append(ex.Specs.Errors, fmt.Sprintf("%s: effect %q: %s", ef.Line, ef.Src, strings.Join(errs, "; ")))
+			continue
+		}
+		goal := Implies(c, Eq(Select(ex.ghostPred(st, ef.Pred), at), BoolC(ef.Value)))
+		ob := &Obligation{Name: fmt.Sprintf("%s/effect/%s#%d", ex.fnName(fr.Fn), ef.Pred, i), Kind: "post", Goal: goal, Props: ct.Props, Fn: fr.Fn.String(), Note: ef.Line}
+		ex.record(st, ob)
+	}
 	if ct.HasAssign {
 		ex.checkFrame(st, fr, ct, names)
 	}
@@ -168,7 +184,7 @@ func (ex *Exec) checkFrame(st *State, fr *Frame, ct *Contract, names map[string]
 	}
 	var objs []*Object
 	for o := range st.Heap {
-		if o.Sym {
+		if o.Sym && st.Written[o] {
 			objs = append(objs, o)
 		}
 	}
@@ -252,7 +268,15 @@ func (ex *Exec) applyContract(st *State, fr *Frame, ins ssa.Instruction, f *ssa.
 		if label == "" {
 			label = fmt.Sprintf("#%d", i)
 		}
-		ob := &Obligation{Name: fmt.Sprintf("%s/pre@%s#%d/%s", ex.fnName(fr.Fn), shortName(f.String()), ord, label), Kind: "pre", Goal: t, Props: rq.Props, Fn: fr.Fn.String()}
+		props := append([]string(nil), rq.Props...)
+		if cct := ex.Specs.Contracts[fr.Fn.String()]; cct != nil {
+			for _, p := range cct.Props {
+				if !hasProp(props, p) {
+					props = append(props, p)
+				}
+			}
+		}
+		ob := &Obligation{Name: fmt.Sprintf("%s/pre@%s#%d/%s", ex.fnName(fr.Fn), shortName(f.String()), ord, label), Kind: "pre", Goal: t, Props: props, Fn: fr.Fn.String()}
 		if ins != nil {
 			ob.Pos = ex.Prog.Fset.Position(ins.Pos())
 		}
@@ -298,6 +322,7 @@ func (ex *Exec) applyContract(st *State, fr *Frame, ins ssa.Instruction, f *ssa.
 			root := ex.objVal(st, p.Obj)
 			t := typeAtPath(p.Obj.Typ, p.Path)
 			st.Heap[p.Obj] = ex.writePath(st, root, p.Path, ex.G.Fresh(t, "post_"+sanitize(p.Obj.Name)), p.Obj.Typ)
+			ex.markWritten(st, p.Obj)
 		}
 	} else {
 		for _, a := range args {
@@ -309,6 +334,26 @@ func (ex *Exec) applyContract(st *State, fr *Frame, ins ssa.Instruction, f *ssa.
 	res = ex.relaxNil(f.Signature, res)
 	names2 := ex.paramNames(f, args, res, true)
 	env2 := &Env{ex: ex, st: st, names: names2, errs: &errs, old: snapshot, oldGhost: oldGhost}
+	for _, ef := range ct.Effects {
+		if ef.Var != "" {
+			c := env2.evalBool(ef.Cond)
+			nv, ok := env2.evalSE(ef.VarExpr).(*Term)
+			if c == nil || !ok || nv.Sort != SInt {
+				ex.Specs.Errors = append(ex.Specs.Errors, fmt.Sprintf("%s: effect %q: %s", ef.Line, ef.Src, strings.Join(errs, "; ")))
+				continue
+			}
+			st.Ghost["gv:"+ef.Var] = Ite(c, nv, ex.ghostVar(st, ef.Var))
+			continue
+		}
+		c := env2.evalBool(ef.Cond)
+		at, ok := ex.argTerm(st, env2.evalBytesArg(ef.Arg))
+		if c == nil || !ok {
+			ex.Specs.Errors = append(ex.Specs.Errors, fmt.Sprintf("%s: effect %q: %s", ef.Line, ef.Src, strings.Join(errs, "; ")))
+			continue
+		}
+		arr := ex.ghostPred(st, ef.Pred)
+		st.Ghost["gp:"+ef.Pred] = Ite(c, Store(arr, at, BoolC(ef.Value)), arr)
+	}
 	for _, en := range ct.Ensures {
 		t := env2.evalBool(&en.Expr)
 		if t == nil {
@@ -561,6 +606,26 @@ func (ex *Exec) havocLoop(st *State, fr *Frame, lp *Loop) {
 		}
 	}
 	ws := ex.loopWriteSet(fr.Fn, lp)
+	for callee := range ws.Calls {
+		if ct := ex.Specs.Contracts[callee]; ct != nil {
+			for _, ef := range ct.Effects {
+				if ef.Var != "" {
+					st.Ghost["gv:"+ef.Var] = Var(ex.G.name("ghost_"+ef.Var), SInt)
+					continue
+				}
+				st.Ghost["gp:"+ef.Pred] = Var(ex.G.name("ghost_"+ef.Pred), ArrSort(ex.Specs.GhostPreds[ef.Pred], SBool))
+			}
+		}
+	}
+	paramObjs := map[*Object]bool{}
+	for i := range ws.Params {
+		if i < len(fr.Args) {
+			if p, ok := fr.Args[i].(*PtrV); ok && p.Obj != nil {
+				ex.objVal(st, p.Obj)
+				paramObjs[p.Obj] = true
+			}
+		}
+	}
 	var objs []*Object
 	for o := range st.Heap {
 		objs = append(objs, o)
@@ -568,6 +633,16 @@ func (ex *Exec) havocLoop(st *State, fr *Frame, lp *Loop) {
 	sort.Slice(objs, func(i, j int) bool { return objs[i].ID < objs[j].ID })
 	for _, o := range objs {
 		cur := st.Heap[o]
+		if paramObjs[o] {
+			st.Heap[o] = ex.havocAll(cur, o.Typ)
+			ex.markWritten(st, o)
+			continue
+		}
+		defer func(o *Object, before Value) {
+			if st.Heap[o] != before {
+				ex.markWritten(st, o)
+			}
+		}(o, cur)
 		if ws.All {
 			st.Heap[o] = ex.havocAll(cur, o.Typ)
 			continue
@@ -715,6 +790,14 @@ func parseTemporal(kind, rest string, defProps []string) (*Temporal, error) {
 				p = strings.TrimSpace(p[:i])
 			}
 			t.A = p
+		case strings.HasPrefix(part, "orB:"):
+			t.B2 = strings.TrimSpace(part[4:])
+		case strings.HasPrefix(part, "orwhere "):
+			se, err := parseSpecExpr(part[8:])
+			if err != nil {
+				return nil, err
+			}
+			t.Cond2 = se
 		case strings.HasPrefix(part, "B:"):
 			t.B = strings.TrimSpace(part[2:])
 		case strings.HasPrefix(part, "where "):
@@ -748,7 +831,26 @@ func eventMatches(e *Event, pat string) bool {
 	if strings.HasPrefix(pat, "=") {
 		return name == pat[1:]
 	}
-	return strings.HasSuffix(name, pat)
+	if strings.HasSuffix(name, pat) {
+		return true
+	}
+	// receiver written without its package qualifier: (*AccountingBook).m matches (*accountant.AccountingBook).m
+	if strings.HasPrefix(name, "(") {
+		if i := strings.Index(name, ")"); i > 0 {
+			recv := name[1:i]
+			star := ""
+			if strings.HasPrefix(recv, "*") {
+				star, recv = "*", recv[1:]
+			}
+			if j := strings.LastIndex(recv, "."); j >= 0 {
+				recv = recv[j+1:]
+			}
+			if strings.HasSuffix("("+star+recv+")"+name[i+1:], pat) {
+				return true
+			}
+		}
+	}
+	return false
 }
 
 func (ex *Exec) eventNames(base map[string]Value, prefix string, e *Event) {
@@ -801,23 +903,34 @@ func (ex *Exec) onEvent(st *State, ev *Event) {
 		} else {
 			var alts []*Term
 			for _, b := range st.Events {
-				if b == ev || !eventMatches(b, tc.B) {
+				if b == ev {
 					continue
 				}
-				nb := map[string]Value{}
-				for k, v := range names {
-					nb[k] = v
-				}
-				ex.eventNames(nb, "b", b)
-				envb := &Env{ex: ex, st: st, names: nb, errs: &errs}
-				c := TTrue
-				if tc.Cond != nil {
-					c = envb.evalBool(tc.Cond)
-					if c == nil {
+				for alt := 0; alt < 2; alt++ {
+					pat, cond := tc.B, tc.Cond
+					if alt == 1 {
+						pat, cond = tc.B2, tc.Cond2
+					}
+					if pat == "" || !eventMatches(b, pat) {
 						continue
 					}
+					nb := map[string]Value{}
+					for k, v := range names {
+						nb[k] = v
+					}
+					ex.eventNames(nb, "b", b)
+					var berrs []string
+					envb := &Env{ex: ex, st: st, names: nb, errs: &berrs}
+					c := TTrue
+					if cond != nil {
+						c = envb.evalBool(cond)
+						if c == nil {
+							ex.Specs.Errors = append(ex.Specs.Errors, fmt.Sprintf("%s: where: %s", tc.Line, strings.Join(berrs, "; ")))
+							continue
+						}
+					}
+					alts = append(alts, c)
 				}
-				alts = append(alts, c)
 			}
 			goal = Implies(when, Or(alts...))
 			if tc.Unless != nil {
